@@ -20,7 +20,9 @@ import time
 
 prop, k = sys.argv[1], sys.argv[2]
 checks = sys.argv[3:] or [prop]
-src = f"/tmp/seed/{prop}.out"
+base = os.environ.get("SEEDBASE", "/tmp/seed")
+src = f"{base}/{prop}.out"
+offset = int(os.environ.get("SEED_OFFSET", "0"))
 env = dict(os.environ)
 env.pop("SKIP_SUITE", None)
 t0 = time.time()
@@ -36,7 +38,7 @@ verdicts = {c: (int(rc), mech.strip().replace("mechanism=", "")) for c, rc, mech
 ok = dc != 0 and du == 0 and suite.startswith("suite_missing=0")
 if not ok:
     sys.exit(f"NOT CONFIRMED {prop}/{k}: {line}")
-dst = f"/verif/seeded/{prop}-{k}"
+dst = f"/verif/seeded/{prop}-{int(k) + offset}"
 os.makedirs(dst, exist_ok=True)
 shutil.copy(f"{src}/patch{k}.diff", f"{dst}/patch.diff")
 shutil.copy(f"{src}/demo{k}.py", f"{dst}/demo.py")
